@@ -23,6 +23,7 @@ ASSUMPTIONS = ['an index / list entry may name the object in its MIB spelling or
 
 REMOTE = 'REMOTE-MIB'
 LOCAL = 'TEST-MIB'
+_SPLIT = [0]
 
 
 def ot(name, syn, oid, access='read-only', **kw):
@@ -58,6 +59,17 @@ def compile_set(local_decls):
     rmod = remote_module()
     lmod = {'name': LOCAL, 'decls': local_decls}
     mods = [refir.finish_module(rmod, [rmod, lmod]), refir.finish_module(lmod, [rmod, lmod])]
+    if _SPLIT[0]:
+        # the same IMPORTS spelled with one FROM clause per symbol (1), the clauses of the other module's symbols
+        # interleaved with the rest (2)
+        imps = []
+        for frm, syms in mods[1].get('imports') or []:
+            imps += [(frm, [sym]) for sym in syms] if frm == REMOTE else [(frm, syms)]
+        if _SPLIT[0] == 2:
+            rem = [i for i in imps if i[0] == REMOTE]
+            rest = [i for i in imps if i[0] != REMOTE]
+            imps = rem[:1] + rest + rem[1:]
+        mods[1] = dict(mods[1], imports=imps)
     texts = dict((m['name'], mibspec.pretty([m])) for m in mods)
     out = {}
     for backend in ('json', 'pysnmp'):
@@ -351,4 +363,33 @@ class Compliance(object):
         return json.dumps(got, sort_keys=True), vs, 2
 
 
-FAMILIES = [Tables(), Lists(), Compliance()]
+
+class ImportSpellings(object):
+    name = 'import-clause-spellings'
+    describe = ('the tables / lists cases that reference two imported symbols, with the IMPORTS section naming the other module in '
+                'one FROM clause per symbol, adjacent or separated by the clauses of other modules')
+
+    def blocks(self, tier):
+        return [{'split': 1}, {'split': 2}]
+
+    def cases(self, block, tier):
+        for clause in ('nt', 'og', 'trap'):
+            for lst in (['remoteObj', 'remote-hy-obj'], ['remote-hy-obj', 'remoteObj'], ['localObj', 'remote-hy-obj', 'remoteObj']):
+                yield {'split': block['split'], 'fam': 'lists', 'case': {'clause': clause, 'list': lst}}
+        yield {'split': block['split'], 'fam': 'lists', 'case': {'clause': 'ng', 'list': ['remoteNotif', 'localNotif']}}
+        for idx in (['remoteIdx', 'remote-hy-idx'], ['remote-hy-idx', 'remoteIdx'], ['colA', 'remote-hy-idx']):
+            for implied in (0, 1):
+                yield {'split': block['split'], 'fam': 'tables',
+                       'case': {'ncols': 1, 'idx': idx, 'implied': implied, 'order': [0, 1, 2, 3]}}
+        yield {'split': block['split'], 'fam': 'tables', 'case': {'ncols': 1, 'aug': 'remoteEntry', 'order': [0, 1, 2, 3]}}
+
+    def run_case(self, case):
+        _SPLIT[0] = case['split']
+        try:
+            fam = Lists() if case['fam'] == 'lists' else Tables()
+            outcome, vs, steps = fam.run_case(case['case'])
+        finally:
+            _SPLIT[0] = 0
+        return outcome, [(sig + '|from-clause-per-symbol', detail) for sig, detail in vs], steps
+
+FAMILIES = [Tables(), Lists(), Compliance(), ImportSpellings()]
